@@ -13,12 +13,13 @@ import (
 
 // Value is a parsed JSON value.
 type Value struct {
-	Kind    byte // 'n' 't' 'f' '"' '0' '{' '['
-	Str     string
-	Num     string // literal as spelled
-	Elems   []*Value
-	Names   []string // object member names in input order (unescaped)
-	Members []*Value
+	Kind     byte // 'n' 't' 'f' '"' '0' '{' '['
+	Str      string
+	Num      string // literal as spelled
+	Elems    []*Value
+	Names    []string // object member names in input order (unescaped)
+	RawNames []string // the member names as spelled (literal including quotes)
+	Members  []*Value
 }
 
 // Tree builds the value tree of a valid single text (nil if b is not valid under o).
@@ -67,6 +68,7 @@ func build(b []byte, toks []Tok, i *int) *Value {
 		v := &Value{Kind: '{'}
 		for toks[*i].Kind != '}' {
 			v.Names = append(v.Names, toks[*i].Str)
+			v.RawNames = append(v.RawNames, string(b[toks[*i].Start:toks[*i].End]))
 			*i++
 			v.Members = append(v.Members, build(b, toks, i))
 		}
@@ -97,9 +99,16 @@ func Equal(a, b *Value, o EqOpts) bool {
 	case '0':
 		switch {
 		case o.NumByFloat:
+			// float64 value with overflow saturated (RFC 8785 serializers cannot express infinity)
 			x, _ := strconv.ParseFloat(a.Num, 64)
 			y, _ := strconv.ParseFloat(b.Num, 64)
-			return x == y || (x != x && y != y)
+			if math.IsInf(x, 0) {
+				x = math.Copysign(math.MaxFloat64, x)
+			}
+			if math.IsInf(y, 0) {
+				y = math.Copysign(math.MaxFloat64, y)
+			}
+			return x == y
 		case o.NumByValue:
 			return Rat(a.Num).Cmp(Rat(b.Num)) == 0
 		}
@@ -126,12 +135,40 @@ func Equal(a, b *Value, o EqOpts) bool {
 			}
 			return true
 		}
-		// multiset comparison, stable within equal names
+		// order-insensitive comparison, stable within equal names (later-wins semantics of
+		// duplicate names must survive a reordering)
 		ia, ib := sortedIdx(a.Names), sortedIdx(b.Names)
+		stable := true
 		for k := range ia {
 			if a.Names[ia[k]] != b.Names[ib[k]] || !Equal(a.Members[ia[k]], b.Members[ib[k]], o) {
-				return false
+				stable = false
+				break
 			}
+		}
+		if stable {
+			return true
+		}
+		// Names that only coincide after U+FFFD substitution of ill-formed bytes are distinct byte
+		// strings; their relative order is not defined by the documentation: compare as a multiset.
+		illFormed := false
+		for _, n := range a.RawNames {
+			if !WellFormed(n) {
+				illFormed = true
+			}
+		}
+		if !illFormed {
+			return false
+		}
+		used := make([]bool, len(b.Names))
+	outer:
+		for i := range a.Names {
+			for j := range b.Names {
+				if !used[j] && a.Names[i] == b.Names[j] && Equal(a.Members[i], b.Members[j], o) {
+					used[j] = true
+					continue outer
+				}
+			}
+			return false
 		}
 		return true
 	}
